@@ -1,8 +1,8 @@
 from propbase import Comp, Prop, reg
 from oracledefs import race
 
-RACE = Comp('race', n_quick=41, n_thorough=321, oracle=race.race_oracle, nontrivial=race.race_nontrivial, stats=race.race_stats,
-            differential=False, race=True, chunk_min=5, timeout=1500, shrink=False)
+RACE = Comp('race', n_quick=8, n_thorough=64, oracle=race.race_oracle, nontrivial=race.race_nontrivial, stats=race.race_stats,
+            differential=False, race=True, chunk_min=1, timeout=1500, shrink=False)
 
 reg(Prop('C07', 'Kevo.Props.C07',
          facts=['facts:locks.*'],
@@ -16,16 +16,16 @@ reg(Prop('C07', 'Kevo.Props.C07',
               'registry Begin/Get/Remove/CleanupConnection/CleanupStaleTransactions - on a real engine with memtables of '
               '300 B .. 2 KB, background flush and compaction running, seeded yields at the verifhook sites; watchdog of 90 s '
               'per call (hang => goroutine dump); GORACE=halt_on_error=0 exitcode=66: every race report is attributed to the '
-              'field named on the racing source lines; a report on a known racy field whose access sites are exactly the '
-              'recorded ones is a KNOWN FINDING, anything else (other race, fatal error, panic, hang, exit status) a violation. '
-              'One case per (scenario, field query). Non-trivial: the `other` query of a child that completed >= 500 calls.',
+              'field named on the racing source lines; no field is known racy on the repaired tree: ANY race report, fatal error, panic, hang or '
+              'unexpected exit status is a violation. One case per scenario plus the deterministic Close-during-flush scenario '
+              '(closeflush: every acknowledged write must be in the log directory when Close returns). Non-trivial: the `other` query of a child that completed >= 500 calls.',
          assumptions=['PARTIAL: decides data-race freedom on the ENUMERATED shared fields and lock-cycle freedom as far as the syntactic '
                       'lock analysis (extract/extract_locks.go) is sound (programs are assumed to conform to the generated tables); '
                       'panics/fatal errors only where modelled',
                       'the model cannot exhibit: preemption inside a Go statement, weak-memory effects (sequential consistency), real '
                       'blocking times, RWMutex writer preference, unlock by another goroutine (the transaction lock is handed over: C17)',
-                      'entry points outside the quantifier are excluded from the tables: Close concurrent with other calls, '
-                      'storage.Manager.RotateWAL/ReloadSSTables (no caller in the engine API)',
+                      'entry points outside the quantifier are excluded from the tables: storage.Manager.RotateWAL/ReloadSSTables (no caller '
+                      'in the engine API); Close is included since 3b93c94 (it takes flushMu and mu)',
                       'calls under a lock that the extractor cannot resolve are listed (WAL observers = replication callbacks: C15; '
                       'merged-iterator internals of a single caller) and pinned by expectation'],
          trusted_base=['Go race detector (happens-before, per execution)', 'extract/extract_locks.go (syntactic lock sets, ~1100 lines)']))
